@@ -94,7 +94,7 @@ def _inventory(repo, builddir):
     objs = []
     for src in ("inventory_probe.cpp", "text_h.cpp", "num_h.cpp"):
         obj = os.path.join(builddir, "inv_" + src.replace(".cpp", ".o"))
-        p = subprocess.run(f"g++ -std=c++17 -O0 -w -c -I{repo}/src -I{here}/harness {here}/harness/{src} -o {obj}", shell=True,
+        p = subprocess.run(f"g++ -std=c++17 -O0 -w -c -DVERIF_INVENTORY_BUILD -I{repo}/src -I{repo}/extras/tests/Helpers -I{here}/harness {here}/harness/{src} -o {obj}", shell=True,
                            stdout=subprocess.PIPE, stderr=subprocess.STDOUT, text=True, timeout=300)
         if p.returncode != 0:
             raise RuntimeError("UNSUPPORTED inventory probe does not compile: " + p.stdout[-1500:])
